@@ -1,1 +1,68 @@
-//! Reference models (independent of the code under test).
+//! Reference models (written from the specifications, independent of the code under test).
+
+use crate::gen::StartState;
+use crate::tokrec::{Answer, Policy, PolicyState, RTok};
+
+pub mod reftok;
+
+/// Receiver of reference-tokenizer output. Mirrors what html5ever's `TokenSink` can do.
+pub trait RefSink {
+    /// Called for every token in emission order. Character tokens are delivered one code point at a
+    /// time as `RTok::Chars(<one char>)`; a U+0000 character token is delivered as `RTok::Null`.
+    /// `line` = 1 + number of line breaks (after CR/CRLF normalisation) consumed when the token is
+    /// emitted. Parse errors are NOT delivered. For Start/End tokens the returned `Answer` switches
+    /// the tokenizer state exactly as the corresponding `TokenSinkResult` would (Continue = no
+    /// change; Script = switch to the data state); for other tokens it is ignored.
+    fn token(&mut self, tok: RTok, line: u64) -> Answer;
+    /// "There is an adjusted current node and it is not an element in the HTML namespace"
+    /// (decides whether `<![CDATA[` opens a CDATA section).
+    fn foreign(&mut self) -> bool;
+}
+
+#[derive(Clone, Debug)]
+pub struct RefTokOpts {
+    pub start: StartState,
+    pub last_start_tag: Option<String>,
+    /// drop one leading U+FEFF of the stream
+    pub discard_bom: bool,
+}
+
+impl Default for RefTokOpts {
+    fn default() -> Self {
+        RefTokOpts { start: StartState::Data, last_start_tag: None, discard_bom: true }
+    }
+}
+
+/// A RefSink that applies a `Policy` and collects coalesced tokens (what C01 compares).
+pub struct PolicySink {
+    pub policy: Policy,
+    pub pstate: PolicyState,
+    pub toks: Vec<(RTok, u64)>,
+}
+
+impl PolicySink {
+    pub fn new(policy: Policy) -> PolicySink {
+        PolicySink { policy, pstate: PolicyState::default(), toks: Vec::new() }
+    }
+}
+
+impl RefSink for PolicySink {
+    fn token(&mut self, tok: RTok, line: u64) -> Answer {
+        let ans = match &tok {
+            RTok::Start { name, self_closing, .. } => self.policy.on_tag(&mut self.pstate, true, name, *self_closing),
+            RTok::End { name, self_closing, .. } => self.policy.on_tag(&mut self.pstate, false, name, *self_closing),
+            _ => Answer::Continue,
+        };
+        match (&tok, self.toks.last_mut()) {
+            (RTok::Chars(c), Some((RTok::Chars(prev), pl))) => {
+                prev.push_str(c);
+                *pl = line;
+            },
+            _ => self.toks.push((tok, line)),
+        }
+        ans
+    }
+    fn foreign(&mut self) -> bool {
+        self.policy.foreign(&self.pstate)
+    }
+}
